@@ -282,8 +282,12 @@ class Engine(object):
         self.prims["is_list"] = GhostPrim("is_list", is_list)
 
     # ------------------------------------------------------------ types
-    def fresh_of_type(self, ex, t, name):
+    def fresh_of_type(self, ex, t, name, env=None):
         ctx = ex.ctx
+        if isinstance(t, str) and t.strip().startswith("="):
+            if env is None:
+                raise Unsupported("'=expr' type element without an environment")
+            return ex.spec_eval(t.strip()[1:], env)
         if isinstance(t, (list, tuple)) and not isinstance(t, str):
             return PList([self.fresh_of_type(ex, x, "%s[%d]" % (name, i)) for i, x in enumerate(t)],
                          origin=None)
@@ -314,10 +318,10 @@ class Engine(object):
             return True
         if t.startswith("[") and t.endswith("]"):
             inner = split_top(t[1:-1])
-            return PList([self.fresh_of_type(ex, x, "%s[%d]" % (name, i)) for i, x in enumerate(inner)])
+            return PList([self.fresh_of_type(ex, x, "%s[%d]" % (name, i), env) for i, x in enumerate(inner)])
         if t.startswith("(") and t.endswith(")"):
             inner = split_top(t[1:-1])
-            return tuple(self.fresh_of_type(ex, x, "%s[%d]" % (name, i)) for i, x in enumerate(inner))
+            return tuple(self.fresh_of_type(ex, x, "%s[%d]" % (name, i), env) for i, x in enumerate(inner))
         if t.startswith("list[") and t.endswith("]"):
             return self.fresh_slist(ex, t[5:-1], name)
         if t in self.classes:
@@ -470,7 +474,7 @@ class Engine(object):
         if c.get("result_is"):
             res = fresh_copy(ex.spec_eval(c["result_is"], env))
         else:
-            res = self.fresh_of_type(ex, c.get("returns", "None"), "ret_" + fq.rsplit(".", 1)[-1])
+            res = self.fresh_of_type(ex, c.get("returns", "None"), "ret_" + fq.rsplit(".", 1)[-1], env)
         env["result"] = res
         for (nm, e) in self.norm_named(c.get("ensures"), "post"):
             ex.ctx.assume(ex.spec_bool(e, env))
@@ -513,6 +517,8 @@ class Engine(object):
             if a in ("real", "float") and isinstance(v, (int, float, SInt, SReal)) and not isinstance(v, bool):
                 return True
             if a in ("str", "char") and is_strlike(v):
+                return True
+            if a.startswith("=") and v is not None:
                 return True
             if a == "bytes" and is_strlike(v):
                 return True
